@@ -3,7 +3,8 @@ package main
 // c14: what the C14 model mirrors, regenerated from the Go source (Gen/C14.lean):
 //   * the source text (go/printer, comments stripped) of the two header-block fragmentation
 //     loops: splitHeaderBlock (write.go) and ClientConn.writeHeaders (transport.go), and of
-//     writeResHeaders.writeHeaderBlock — Proofs/C14Tie.lean compares them with the text the model
+//     writeResHeaders.writeHeaderBlock, and of clientStream.encodeAndWriteHeaders (where END_STREAM
+//     on the request HEADERS is decided) — Proofs/C14Tie.lean compares them with the text the model
 //     was written against, so any edit of these functions breaks a proof;
 //   * the local constant maxFrameSize of splitHeaderBlock, handlerChunkWriteSize, defaultUserAgent,
 //     TrailerPrefix;
@@ -166,6 +167,7 @@ func init() {
 			{"splitHeaderBlockSrc", "splitHeaderBlock"},
 			{"clientWriteHeadersSrc", "ClientConn.writeHeaders"},
 			{"writeHeaderBlockSrc", "writeResHeaders.writeHeaderBlock"},
+			{"encodeAndWriteHeadersSrc", "clientStream.encodeAndWriteHeaders"},
 		} {
 			src, err := c14FuncSrc(h2, f.fn)
 			if err != nil {
